@@ -88,8 +88,9 @@ func (s *service) Handle(ctx context.Context, conn net.Conn) error {
 
 	body := make([]byte, 1024)
 
-	n, err := req.Body.Read(body)
-	if err == io.EOF {
+	// a single Read returns whatever happens to be buffered: fill the payload buffer
+	n, err := io.ReadFull(req.Body, body)
+	if err == io.EOF || (err == io.ErrUnexpectedEOF && n > 0) {
 	} else if err != nil {
 		return err
 	}
